@@ -12,3 +12,5 @@ import Gomjml.Props.C19
 #print axioms Gomjml.Props.C19.C19_table_is_spec
 #print axioms Gomjml.Props.C19.C19_lone_class_only
 #print axioms Gomjml.Props.C19.C19_table_entries
+#print axioms Gomjml.Props.C19.C19_class_attribute_joined
+#print axioms Gomjml.Props.C19.C19_component_style_from_sheet
